@@ -897,6 +897,8 @@ class EmbeddedSignature(Signature):
 
     def parse(self, packet):
         super(EmbeddedSignature, self).parse(packet)
+        # the embedded signature is the whole subpacket body (the subpacket length counts the type octet)
+        self._sig.header.length = self.header.length - 1
         self._sig.parse(packet)
 
 
